@@ -10,32 +10,33 @@ variable {E : Type} [DecidableEq E]
 /-! ### shape of a turn; what it preserves -/
 
 theorem loopStep_form (env : Env) (s : State E) :
-    loopStep env s = s ∨ loopStep env s = { s with pending := false } ∨ loopStep env s = addState env s ∨
+    loopStep env s = s ∨ (∃ w, loopStep env s = { s with pending := false, writes := w }) ∨
+    loopStep env s = addState env s ∨
     (∃ g, loopStep env s = remState env s g) ∨ loopStep env s = releaseTurn env s ∨
     ∃ now' pend w, loopStep env s = nextState env s now' pend w := by
   by_cases hp : s.pending = true
   rotate_left
   · left; unfold loopStep; simp [hp]
   by_cases hg : s.gone = true
-  · right; left; unfold loopStep; simp [hp, hg]
+  · right; left; exact ⟨s.writes, by unfold loopStep; simp [hp, hg]⟩
   have hg' : s.gone = false := by simpa using hg
   rcases turn_cases env s hp hg' with ⟨_, _, _, _, h⟩ | ⟨_, _, h⟩ | ⟨_, _, h⟩ | ⟨_, _, _, _, _, h⟩ | ⟨_, _, _, _, h⟩
   · exact Or.inr (Or.inr (Or.inl h))
   · exact Or.inr (Or.inr (Or.inr (Or.inl ⟨_, h⟩)))
-  · exact Or.inr (Or.inl h)
+  · exact Or.inr (Or.inl ⟨_, h⟩)
   · exact Or.inr (Or.inr (Or.inr (Or.inr (Or.inl h))))
   · right; right; right; right; right
     rw [h]
     rcases handleTurn_cases env s with ⟨_, h'⟩ | ⟨d, _, _, h'⟩ | ⟨_, _, h'⟩ <;> exact ⟨_, _, _, h'⟩
 
 theorem loopStep_ess (env : Env) (s : State E) : (loopStep env s).ess = s.ess := by
-  rcases loopStep_form env s with h | h | h | ⟨_, h⟩ | h | ⟨_, _, _, h⟩ <;> rw [h] <;> rfl
+  rcases loopStep_form env s with h | ⟨_, h⟩ | h | ⟨_, h⟩ | h | ⟨_, _, _, h⟩ <;> rw [h] <;> rfl
 
 theorem loopStep_noticed (env : Env) (s : State E) : (loopStep env s).noticed = s.noticed := by
-  rcases loopStep_form env s with h | h | h | ⟨_, h⟩ | h | ⟨_, _, _, h⟩ <;> rw [h] <;> rfl
+  rcases loopStep_form env s with h | ⟨_, h⟩ | h | ⟨_, h⟩ | h | ⟨_, _, _, h⟩ <;> rw [h] <;> rfl
 
 theorem loopStep_marked (env : Env) (s : State E) : (loopStep env s).marked = s.marked := by
-  rcases loopStep_form env s with h | h | h | ⟨_, h⟩ | h | ⟨_, _, _, h⟩ <;> rw [h] <;> rfl
+  rcases loopStep_form env s with h | ⟨_, h⟩ | h | ⟨_, h⟩ | h | ⟨_, _, _, h⟩ <;> rw [h] <;> rfl
 
 theorem loopStep_quiescent (env : Env) (s : State E) (h : s.pending = false) : loopStep env s = s := by
   unfold loopStep; simp [h]
@@ -58,7 +59,7 @@ theorem loopStep_uniform (env : Env) (wf : WF env) (s : State E) (hu : UniformOn
   have hsub : ∀ i ∈ (cfgOf env s).selected, i ∈ (cfgOf env s).owned := fun i hi => wf.sub _ i hi
   have hup : UniformOn env.owned (pass env s).P' :=
     uniform_preserved (cfgOf env s) s.P s.now s.now env.exec hsub hu
-  rcases loopStep_form env s with h | h | h | ⟨_, h⟩ | h | ⟨_, _, _, h⟩ <;> rw [h]
+  rcases loopStep_form env s with h | ⟨_, h⟩ | h | ⟨_, h⟩ | h | ⟨_, _, _, h⟩ <;> rw [h]
   · exact hu
   · exact hu
   · exact hu
@@ -212,7 +213,7 @@ theorem quiescent_after_step (env : Env) (s : State E) (hp : s.pending = true) (
 theorem settled_event_no_write (env : Env) (t : State E) (hb : t.base = some t.ess)
     (hi : (t.noticed && !t.fullyHandled) = false) (hn : ∀ i ∈ env.owned, t.P i = none)
     (hg : t.gone = false) (hmk : t.marked = false) (ha : adjusting env t = false) :
-    (loopStep env { t with pending := true }).writes = t.writes ∧
+    (loopStep env { t with pending := true }).writes = t.writes + cp env ∧
     (loopStep env { t with pending := true }).pending = false ∧
     (loopStep env { t with pending := true }).base = t.base ∧
     ∀ i, (loopStep env { t with pending := true }).P i = t.P i := by
